@@ -620,8 +620,11 @@ impl<K: CacheKey + 'static> AsyncCache<K> for DiskCache<K> {
                 match self.read_file(&file_path).await {
                     Ok(data) => {
                         let size_bytes = data.len();
-                        let metadata = fs::metadata(&file_path).map_err(CacheError::Io)?;
-                        let created = metadata.created().unwrap_or_else(|_| SystemTime::now());
+                        // The file may be removed by a concurrent remove()/clear()
+                        // right after it was read; that must not fail the get.
+                        let created = fs::metadata(&file_path)
+                            .and_then(|metadata| metadata.created())
+                            .unwrap_or_else(|_| SystemTime::now());
 
                         // Add to index for future lookups
                         let entry = DiskCacheEntry {
@@ -680,7 +683,18 @@ impl<K: CacheKey + 'static> AsyncCache<K> for DiskCache<K> {
         // writers always see a file and an index entry that belong together.
         let mut attempts = 0;
         loop {
-            let temp_path = self.write_temp_file(&file_path, &value).await?;
+            let temp_path = match self.write_temp_file(&file_path, &value).await {
+                Ok(path) => path,
+                // A concurrent clear() removed the (sub)directory between its
+                // creation and the creation of the temporary file: try again.
+                Err(CacheError::Io(e))
+                    if e.kind() == std::io::ErrorKind::NotFound && attempts < 2 =>
+                {
+                    attempts += 1;
+                    continue;
+                }
+                Err(e) => return Err(e),
+            };
 
             #[cfg(feature = "verif-hooks")]
             crate::verif_hooks::sched_point("disk.put.before_index_update");
